@@ -28,7 +28,7 @@ def reach(js, res, p, limit_aware):
     for i in range(a, d):
         avail = cs["max_power"]
         if limit_aware:
-            avail = min(avail, limit_aware[i] - sum(res["fixed"][i].values()))
+            avail = min(avail, limit_aware[i])
         if avail > 0:
             b.load(res["interval"], max_power=avail, target_soc=p["desired"])
     return b.soc
@@ -63,14 +63,12 @@ def check_case(case):
     if res.get("error"):
         return [("C09/%s/crash" % strategy, "run raised %s" % res["error"])], st
     if res["aborted"]:
-        v.append(("C09/%s/aborted" % strategy, "simulation aborted at step %d" % res["n"]))
+        st["aborted"] += 1           # connector limit exceeded etc.: the business of C04/C17, not of the service guarantee
     comp = js["components"]
     vt = comp["vehicle_types"]["vt"]
-    has_limit = any("max_power" in e for e in js["events"]["grid_operator_signals"])
-    lim = limits(js, res) if has_limit else None
-    if has_limit and len(comp["vehicles"]) > 1:
-        st["skipped-shared-limit"] += 1
-        return v, st
+    lim = svc.limit_series(js, res["n"] + 1) if len(comp["vehicles"]) == 1 else None
+    rating = svc.limit_series(js, res["n"] + 1, with_fixed=False)
+    gc_rating = comp["grid_connectors"]["GC1"]["max_power"]
     for p in res["periods"]:
         if "dep_time" not in p:
             continue
@@ -88,7 +86,13 @@ def check_case(case):
         short = target - p["dep_soc"]
         if short > TOL:
             taper = len({pw for _, pw in vt["charging_curve"]}) > 1
-            cls = "min-power-sliver" if (minp > 0 and short <= sliver + TOL) else ("desired-missed/taper" if taper else "desired-missed")
+            a_, d_ = svc.step_of(res, p["arr_time"]), svc.step_of(res, p["dep_time"])
+            binding = lim is not None and min(lim[a_:d_] + [cs["max_power"]]) < cs["max_power"] - 1e-9
+            cls = ("min-power-sliver" if (minp > 0 and short <= sliver + TOL) else
+                   "desired-missed/taper" if taper else
+                   ("desired-missed/headroom/" + ("limit-signal" if min(rating[a_:d_] + [gc_rating]) < gc_rating - 1e-9 else "fixed-load")
+                    + ("/no-slack" if (case["js"]["components"]["vehicles"][p["vid"]].get("_margin") or 1.0) <= 1.0 else "/slack")) if binding
+                   else "desired-missed")
             v.append(("C09/%s/%s" % (strategy, cls),
                       "%s leaves at %s with SoC %.6f, desired %.4f, reachable alone at full power %.6f (short by %.6f; one step at minimum power = %.6f); margin %s, departure offset %s min, interval %s, vehicles %d"
                       % (p["vid"], p["dep_time"], p["dep_soc"], p["desired"], r, short, sliver,
